@@ -4,6 +4,7 @@ mod c12;
 mod c14;
 mod c15;
 mod c17;
+mod cli;
 mod entries;
 mod fuzz;
 mod idrules;
@@ -300,6 +301,17 @@ fn run(cmd: &str, args: &[String], seed: u64, rep: &mut Report) {
                 mutations: vec![],
             };
             c12::replay(&ctx, &read_ndjson(arg(&args, "--in").unwrap()), seed, &mut rep);
+        }
+        "cli" => {
+            let ctx = fuzz::Ctx {
+                v: valve::Ctx {
+                    layouts: layout::LayoutSet::load(arg(&args, "--layouts").unwrap()),
+                    templates: template::Templates::load(arg(&args, "--templates").unwrap()),
+                    drift: drift_ids(),
+                },
+                mutations: vec![],
+            };
+            cli::replay(&ctx, arg(&args, "--bin").unwrap(), &read_ndjson(arg(&args, "--in").unwrap()), seed, arg_u64(&args, "--reps", 1) as usize, &mut rep);
         }
         "settings-real" => settings::real_sockets(&mut rep),
         "master" => master::replay(&read_ndjson(arg(&args, "--in").unwrap()), seed, arg_u64(&args, "--reps", 1) as usize, &mut rep),
